@@ -36,6 +36,9 @@ type specEnv struct {
 	bound     int
 	pol       int // +1: formula is a proof goal, -1: an assumption, 0: unknown/mixed
 	localsAt  *ssa.BasicBlock // postconditions: program point at which non-parameter locals are read
+	outOfScopeOK bool         // postconditions: a local that is not in scope at this return makes the clause inapplicable here
+	outOfScope   bool
+	scopeFn      *ssa.Function // when a callee's postcondition is assumed at a call: the callee
 	inOld     bool
 	errs      []string
 }
@@ -249,7 +252,30 @@ func (se *specEnv) ident(x *ast.Ident) tv {
 			return tv{term: "", typ: tn.Type()}
 		}
 	}
+	if se.outOfScopeOK && se.scopeFn != nil && localDeclared(se.scopeFn, x.Name) {
+		se.outOfScope = true
+		return tv{term: "false", typ: types.Typ[types.Bool]}
+	}
+	if se.outOfScopeOK && se.scopeFn == nil && se.fr != nil && localDeclared(se.fr.fn, x.Name) {
+		// a postcondition that names a local of the function is not evaluated at a return its declaration does
+		// not reach (atReturn insists that it is evaluated at one return at least)
+		se.outOfScope = true
+		return tv{term: "false", typ: types.Typ[types.Bool]}
+	}
 	return se.fail("unknown identifier %q in spec", x.Name)
+}
+
+func localDeclared(fn *ssa.Function, name string) bool {
+	for _, b := range fn.Blocks {
+		for _, in := range b.Instrs {
+			if d, ok := in.(*ssa.DebugRef); ok && d.Object() != nil && d.Object().Name() == name {
+				if _, isVar := d.Object().(*types.Var); isVar {
+					return true
+				}
+			}
+		}
+	}
+	return false
 }
 
 func (se *specEnv) constVal(val constant.Value, t types.Type) tv {
@@ -724,6 +750,12 @@ func (se *specEnv) call(x *ast.CallExpr) tv {
 		bn := q(fmt.Sprintf("%s!%d", vid.Name, se.v.ctr))
 		saved, had := se.names[vid.Name]
 		se.names[vid.Name] = tv{term: bn, typ: intT}
+		qsort := "Int"
+		if strings.HasPrefix(vid.Name, "str") && strings.HasSuffix(vid.Name, "_") {
+			// a bound variable named str..._ ranges over strings (keys of a map[string]T)
+			se.names[vid.Name] = tv{term: bn, typ: types.Typ[types.String]}
+			qsort = "Str"
+		}
 		var rng, body string
 		if len(x.Args) == 4 {
 			lo, hi := se.eval(x.Args[1]), se.eval(x.Args[2])
@@ -751,13 +783,13 @@ func (se *specEnv) call(x *ast.CallExpr) tv {
 			rng2 = and(guard, rng2)
 		}
 		if id.Name == "all" {
-			f := fmt.Sprintf("(forall ((%s Int)) %s)", nb, imp(rng2, body2))
+			f := fmt.Sprintf("(forall ((%s %s)) %s)", nb, qsort, imp(rng2, body2))
 			if kind == "ref" && se.pol > 0 {
 				f = and(f, side)
 			}
 			return tv{term: f, typ: boolT}
 		}
-		return tv{term: fmt.Sprintf("(exists ((%s Int)) %s)", nb, and(rng2, body2)), typ: boolT}
+		return tv{term: fmt.Sprintf("(exists ((%s %s)) %s)", nb, qsort, and(rng2, body2)), typ: boolT}
 	case "forall_bytes":
 		// forall_bytes(s, body): for every well-formed []byte value s (header and contents arbitrary)
 		if !argn(2) {
